@@ -108,6 +108,64 @@ def gen_station(rng):
     return net, truth, {"dim": 3, "approx": "omitted" if mode != "exact" else "exact", "terrain": terrain, "mode": mode, "station": True}
 
 
+def gen_polar(rng):
+    """new 3D points without approximate coordinates, each observed from a known, oriented station by direction + slope
+    distance + zenith angle (no horizontal distance): the polar method of the documented strategy resolves every one of
+    them, so the adjustment MUST take place (no 'could not be resolved' excuse); optionally a traverse leg from the
+    first new point, optionally instrument / target heights"""
+    S = (1000.0 + rng.uniform(0, 50), 2000.0 + rng.uniform(0, 50), 300.0 + rng.uniform(0, 20))
+    a0 = rng.uniform(0, 2 * math.pi)
+    d0 = rng.uniform(100, 300)
+    truth = {"S": S, "R": (S[0] + d0 * math.cos(a0), S[1] + d0 * math.sin(a0), S[2] + rng.uniform(-20, 20))}
+    pts = [{"id": k, "x": truth[k][0], "y": truth[k][1], "z": truth[k][2], "fix": "xyz"} for k in ("S", "R")]
+    k = rng.randint(2, 4)
+    for i in range(k):
+        ang = a0 + 2 * math.pi * (i + 1) / (k + 2) + rng.uniform(-0.2, 0.2)
+        d = rng.uniform(50, 250)
+        truth["P%d" % i] = (S[0] + d * math.cos(ang), S[1] + d * math.sin(ang), S[2] + rng.choice([-1, 1]) * rng.uniform(5, 40))
+        pts.append({"id": "P%d" % i, "adj": "xyz"})
+    with_dh = rng.random() < 0.4
+
+    def polar(frm, to, orient):
+        out = []
+        # one set-up per sight: the slope distance and the zenith angle share the instrument and target heights (the polar
+        # method reduces the slope distance by the zenith angle of the same line; with different heights on a steep sight the
+        # approximate position can be off by more than tol-abs, which is not what the strategy promises to resolve)
+        fdh, tdh = rng.choice([0.0, 1.5, 1.62]), rng.choice([0.0, 1.3, 2.0])
+        for t in ("direction", "s-distance", "z-angle"):
+            ob = {"t": t, "to": to, "stdev": 5.0}
+            if with_dh and t != "direction":
+                ob["from_dh"] = fdh
+                ob["to_dh"] = tdh
+            ob["val"] = netgen.obs_value(ob, truth, orient, frm)
+            out.append(ob)
+        return out
+
+    o1 = rng.uniform(0, 2 * math.pi)
+    ob = {"t": "direction", "to": "R", "stdev": 5.0}
+    ob["val"] = netgen.obs_value(ob, truth, o1, "S")
+    obs = [ob]
+    for i in range(k):
+        obs += polar("S", "P%d" % i, o1)
+    if rng.random() < 0.5:      # a second round
+        for i in range(k):
+            obs += polar("S", "P%d" % i, o1)
+    clusters = [{"kind": "obs", "from": "S", "obs": obs}]
+    if rng.random() < 0.5:      # traverse leg P0 -> Q
+        ang = rng.uniform(0, 2 * math.pi)
+        d = rng.uniform(60, 200)
+        P0 = truth["P0"]
+        truth["Q"] = (P0[0] + d * math.cos(ang), P0[1] + d * math.sin(ang), P0[2] + rng.uniform(-30, 30))
+        pts.append({"id": "Q", "adj": "xyz"})
+        o2 = rng.uniform(0, 2 * math.pi)
+        ob = {"t": "direction", "to": "S", "stdev": 5.0}
+        ob["val"] = netgen.obs_value(ob, truth, o2, "P0")
+        clusters.append({"kind": "obs", "from": "P0", "obs": [ob] + polar("P0", "Q", o2)})
+    net = {"attrs": {"axes-xy": "ne", "angles": "left-handed"}, "params": {"sigma-apr": 10.0, "tol-abs": 1000.0},
+           "description": "polar survey, new points without coordinates", "points": pts, "clusters": clusters}
+    return net, truth, {"dim": 3, "approx": "omitted", "must_resolve": True, "heights": with_dh}
+
+
 def check_truth(res, truth, tol=5e-6):
     rl = tol
     dd = []
@@ -141,7 +199,7 @@ def run(ctx):
     n = 24 if ctx.quick else 250
     bad = 0
     for t in range(n):
-        net, truth, meta = gen_station(ctx.rng) if t % 4 == 3 else (gen_heights(ctx.rng) if t % 6 == 4 else gen(ctx.rng))
+        net, truth, meta = gen_station(ctx.rng) if t % 4 == 3 else (gen_heights(ctx.rng) if t % 6 == 4 else (gen_polar(ctx.rng) if t % 6 == 2 else gen(ctx.rng)))
         nobs = netgen.count_obs(net)
         algs = [ctx.rng.choice(enet.ALGS)] if ctx.quick else enet.ALGS
         outs, txt = enet.run_all(ctx, bdir, net, "c06_%d" % t, algs=algs, outputs=("xml", "text"))
@@ -156,7 +214,7 @@ def run(ctx):
                 break
             if not enet.adjusted_ok(o):
                 msg = (o["run"].out + o["run"].err)[-600:]
-                if meta["approx"] == "omitted":
+                if meta["approx"] == "omitted" and not meta.get("must_resolve"):
                     ctx.hist("omitted_not_resolved", 1)      # the documented strategies could not resolve it: outside the quantifier
                     break
                 ctx.violation({"kind": "E:consistent", "gkf": txt, "algorithm": a, "output": msg}, "a determined consistent network was not adjusted (%s)" % a); bad += 1
@@ -178,6 +236,8 @@ def run(ctx):
                 dd.append("%d of %d error-free observations were left out of the adjustment" % (nobs - res["equations"], nobs))
             if missing and meta["approx"] != "omitted":
                 dd.append("points %s dropped although approximate coordinates were given" % missing)
+            if missing and meta.get("must_resolve"):
+                dd.append("points %s dropped although the polar method resolves them (known, oriented station; direction + slope distance + zenith angle)" % missing)
             if missing and meta["approx"] == "omitted" and not dd:
                 ctx.hist("omitted_not_resolved", 1)
                 break
